@@ -35,7 +35,8 @@ def run(chk: Check) -> None:
         for rel, meta in scn["_metas"].items():
             again = [e for e in ev2.get(rel, []) if e["o"] == "changed"] or (rel in second["changed_files"])
             if again:
-                chk.violation(f"C07|{scn['_codemod']}|{meta['seed'].split('|')[-1]}|{progspace.vec_key(meta['vector'])}",
+                v_ = meta["vector"]
+                chk.violation(f"C07|{scn['_codemod']}|x{v_['mult']}|{meta['seed'].split('|')[-1]}|{v_['wrap']}/{v_['layout']}/{v_['imp']}",
                               f"{scn['_codemod']} on seed {meta['seed']} varied as {progspace.vec_key(meta['vector'])}: the second run changes the file again",
                               {"codemod": scn["_codemod"], "program": scn["files"][rel], "vector": meta["vector"]})
     chk.sample({"codemod": scenarios[0]["_codemod"], "variants": [progspace.vec_key(m["vector"]) for m in list(scenarios[0]["_metas"].values())[:8]]})
